@@ -102,6 +102,11 @@ class DiscreteTimeInterpreter(TimeInterpreter):
         if duration < self.sampling_period - tolerance or duration > self.sampling_period + tolerance:
             self.sampling_violation_counter = self.sampling_violation_counter + 1
 
+    def check_pastified_bounds(self):
+        # the bounds of a pastified specification as they were written are multiples of the sampling period too
+        for interval in getattr(self.ast, 'pastified_intervals', []):
+            self.time_unit_transformer(interval)
+
     def time_unit_transformer(self, node):
         b = node.begin
         e = node.end
